@@ -146,7 +146,7 @@ def run(ctx):
         ctx.case(("identities", int(np.log10(x)) // 5, int(dB) // 100))
     ident("Q(0)=1/2", ut.Q(0), 0.5)
     # dec2bin returns a fresh expansion every time (a caller may edit the word it got)
-    for v_, d_ in ((5, 4), (0, 3), (255, 8), (1, 1), (300, 12)):
+    for v_, d_ in ((5, 4), (0, 3), (255, 8), (1, 1), (300, 12), (1, 64), (2 ** 63, 64), (2 ** 63 - 1, 63), (2 ** 64 - 1, 64), (2 ** 70 + 5, 80), (1, 100), (3 ** 40, 65)):   # widths beyond 63 bits too
         w1 = ut.dec2bin(v_, d_)
         want_ = [int(c_) for c_ in format(v_, "b").zfill(d_)]
         w1[...] = 1 - np.asarray(w1)
